@@ -185,10 +185,17 @@ def case_key(case):
 def evaluate(cases, cfg, tag):
     """Model agreement and specification oracle for a list of implementation traces."""
     work = os.path.join(CACHE, 'work', tag)
-    model = coqrun.run_cases(cases, cfg, work + '-m', fn='check_case', imports='Storage Query World Borrow Run')
+    model = coqrun.run_cases(cases, cfg, work + '-m', fn='check_case_w', imports='Storage Query World Borrow Run')
     spec = coqrun.run_cases(cases, cfg, work + '-s', fn='spec_check', imports='Storage Query World Borrow Run Spec')
     out = []
     for c, m, s in zip(cases, model, spec):
+        # (wf_case d ops, check_case ..): the first component says whether the history satisfies the
+        # hypotheses of the run-level theorems (WorldInv.wf_case_never_ub)
+        mm = re.match(r'^\((true|false), (.*)\)$', m)
+        if not mm:
+            raise Internal('unexpected model result: ' + m[:200])
+        c['wf'] = (mm.group(1) == 'true')
+        m = mm.group(2)
         diff = None if m == 'None' else (coqrun.parse_diff(m) or m)
         sf = None
         if s != 'None':
@@ -263,6 +270,7 @@ def run_streams(pid, streams, cfgname, binary, seed, scale, corpus=True):
                 if o[0] in ('destroy', 'probe', 'todirect', 'find', 'write', 'create', 'createw', 'clone', 'drop'):
                     stats['outcomes'][tag] = stats['outcomes'].get(tag, 0) + 1
         results += evaluate(cases, cfg, '%s-%s-%s-%s' % (pid, cfgname, wname, profile))
+    stats['wf_histories'] = sum(1 for r in results if r['case'].get('wf'))
     return results, stats
 
 
@@ -603,7 +611,7 @@ def check(pid, tier, seed):
             rule='histories generated interactively from VERIF_SEED per stream; non-trivial = at least 10 operations including every kind in %s; distinct by the hash of the operation list' % sorted(need),
             traces_validated_against_impl=total_cases,
             model_disagreements=len(diffs), spec_failures=len(own),
-            streams=[dict(config=cn, cases=s['cases'], ops=s['ops'], ops_by_kind=s['by_kind'], outcomes=s['outcomes']) for cn, s in stats_all],
+            streams=[dict(config=cn, cases=s['cases'], ops=s['ops'], histories_meeting_run_theorem_hypotheses=s.get('wf_histories', 0), ops_by_kind=s['by_kind'], outcomes=s['outcomes']) for cn, s in stats_all],
             samples=([sample] if sample else []) + ([macro_info['sample']] if macro_info else []),
             macro=macro_info, c18=c18_info, programs=(c18_info['programs'] if c18_info else 0),
             exhaustive=any(r['case'].get('exhaustive') for r in all_results) if pid == 'C11' else False,
